@@ -24,6 +24,7 @@ CONSTANTS Widths,    \* set of leaf widths; one is chosen per behaviour
           MaxW,      \* largest width a handle may reach (compositions / widening multiply)
           FreshOnly, \* TRUE: every call after the first must use the newest handle (exhaustive configs)
           Ops,       \* set of action kinds enabled
+          MapSpan,   \* partial-write configs: only the low MapSpan bits of r are written
           MapSrc,    \* {} : any handle may be stored by mset; else only these (exhaustive partial-write configs)
           Rand       \* TRUE (simulation configs): operand handles are drawn with RandomElement instead of
                      \* being enumerated, so that a step has ~100 candidate successors instead of ~10^4
@@ -118,8 +119,9 @@ SetSf == \E i \in Pick1((NLeaves + 1)..N), sf \in {0, 1} :
 MSet == \E j \in Pick1(IF MapSrc = {} THEN All ELSE MapSrc) :
         \E lo \in Pick1(IF MapSrc = {} THEN 0..(pool[j] - 1) ELSE {0}) :
         \E n \in Pick1(1..(pool[j] - lo)) :
-        \E pos \in Pick1({p \in 0..(2 * W - 1) : p + n <= 2 * W}) :
+        \E pos \in Pick1({p \in 0..(2 * W - 1) : p + n <= (IF MapSrc = {} THEN 2 * W ELSE MapSpan)}) :
          /\ "mset" \in Ops /\ (MapSrc = {} => Uses({j}))
+         /\ (MapSrc # {} => Steps < MaxSteps - 1)      \* partial-write configs: the last call is the read back
          /\ Push(n, [act |-> "mset", j |-> j, lo |-> lo, pos |-> pos, n |-> n])   \* value = handle j [lo : lo+n]
 MGet == /\ "mget" \in Ops /\ 2 * W <= MaxW /\ (IF Steps = 0 THEN TRUE ELSE h[Steps].act # "mget")
         /\ (MapSrc # {} => Steps = MaxSteps - 1)     \* partial-write configs: read the register back once, last
